@@ -869,8 +869,13 @@ impl<'a, 'e> Translator<'a, 'e> {
                             (Pattern::Ident(id), Expr::Ident(expr_id, _))
                                 if !expr_id.name.is_global() =>
                             {
-                                self.ident_replacments
-                                    .insert(id.name.clone(), expr_id.name.clone());
+                                // `expr_id` may itself have been replaced by an earlier rewrite
+                                let new_name = self
+                                    .ident_replacments
+                                    .get(&expr_id.name)
+                                    .unwrap_or(&expr_id.name)
+                                    .clone();
+                                self.ident_replacments.insert(id.name.clone(), new_name);
 
                                 let expr = alts[0].expr;
                                 return Some(self.visit_expr(expr).unwrap_or(expr));
